@@ -403,10 +403,10 @@ def run(ctx: Ctx) -> int:
         traces.append({"n": max(o["n"], 1), "W": o["W"], "ev": o["ev"]})
     ctx.extra["random_runs"] = stats
     # ---- adversarial corpus (hand-written seams), every case under several docformats
-    from .. import adversarial, adversarial2, adversarial3
+    from .. import adversarial, adversarial2, adversarial3, adversarial4
     fmts = ["epytext", "restructuredtext", "google"] if ctx.quick else DOCFORMATS
     ajobs = [{"kind": "adversarial:" + c["name"], "files": c["files"], "roots": c["roots"], "docformat": f, "W": (i % 2 == 1), "id": i}
-             for c in adversarial.cases() + adversarial2.cases2() + adversarial3.cases3() for i, f in enumerate(fmts)]
+             for c in adversarial.cases() + adversarial2.cases2() + adversarial3.cases3() + adversarial4.cases4() for i, f in enumerate(fmts)]
     aouts = run_jobs(ctx, ajobs)
     astats = {"runs": 0, "exceptions": 0}
     for o in aouts:
